@@ -34,10 +34,10 @@ def from_error_trace(r):
     return [convert_state(l, s) for l, s in tlaval.parse_error_trace(r.out)]
 
 
-def replay(c, behs, native, nkeys=1, retry=2, timeout=3000, only_once=False, force=False):
+def replay(c, behs, native, nkeys=1, retry=2, timeout=3000, only_once=False, force=False, recv_only=False):
     d = vlib.scratch('loop-')
     p = os.path.join(d, 'in.json')
-    json.dump({'native': native, 'nkeys': nkeys, 'retryCount': retry, 'onlyOnce': only_once, 'force': force,
+    json.dump({'native': native, 'nkeys': nkeys, 'retryCount': retry, 'onlyOnce': only_once, 'force': force, 'receiveOnly': recv_only,
                'behaviours': behs}, open(p, 'w'))
     return vlib.run_harness(['loop', p], timeout=timeout)
 
@@ -67,15 +67,16 @@ def absorb(c, res, prop, extra_props=()):
     proto.absorb_filtered(c, res, prop, extra_props)
 
 
-def run_suite(c, prop, extra_props=(), with_window=True, window_inv=None):
+def run_suite(c, prop, extra_props=(), with_window=True, window_inv=None, exhaustive=True):
     """Exhaustive TLC on the quick/thorough loop configurations (window excluded), simulation behaviours
     replayed through the real loop, and - when the named deviation AppCommitInEmptyTxnWindow is enabled -
     replay of TLC's counterexample to confirm the known finding on the real code."""
     thorough = c.tier == 'thorough'
     for tag, native in (('native', True), ('shadow', False)):
         cfg = 'LSLoop_%s.cfg' % tag if thorough else 'LSLoop_%s_q.cfg' % tag
-        r = vlib.tlc_must_pass('LSLoop', cfg, workers=16 if thorough else 8, timeout=3000)
-        c.add_tlc(cfg, r)
+        if exhaustive:
+            r = vlib.tlc_must_pass('LSLoop', cfg, workers=16 if thorough else 8, timeout=3000)
+            c.add_tlc(cfg, r)
         behs = simulate(c, 'LSLoop_%s.cfg' % tag, 6000 if thorough else 600, 45)
         res = replay(c, behs, native)
         absorb(c, res, prop, extra_props)
@@ -105,21 +106,24 @@ def run_suite(c, prop, extra_props=(), with_window=True, window_inv=None):
             absorb(c, res, prop, extra_props)
 
 
-def run_extra(c, prop, kind, extra_props=()):
+def run_extra(c, prop, kind, extra_props=(), exhaustive=True):
     """Start-up with another instance's snapshot in the bucket and the start tracker ('ready'), only_once ('once'),
     or the forced-snapshot interval ('force'):
     exhaustive TLC (smaller constants in the quick tier), simulated behaviours replayed through the real loop."""
     thorough = c.tier == 'thorough'
     for tag, native in (('native', True), ('shadow', False)):
         cfg = 'LSLoop_%s_%s%s.cfg' % (tag, kind, '' if thorough else '_q')
-        r = vlib.tlc_must_pass('LSLoop', cfg, workers=16 if thorough else 8, timeout=3000)
-        c.add_tlc(cfg, r)
+        if exhaustive:
+            r = vlib.tlc_must_pass('LSLoop', cfg, workers=16 if thorough else 8, timeout=3000)
+            c.add_tlc(cfg, r)
         behs = simulate(c, 'LSLoop_%s_%s.cfg' % (tag, kind), 3000 if thorough else 400, 45)
         if kind == 'once':
             behs = [b for b in behs if any(s['act'].get('to') == 'exit' for s in b) or b[0]['act'].get('other')]
         elif kind == 'force':
             behs = [b for b in behs if any(s['act']['name'] == 'interval' for s in b)]
+        elif kind == 'recvonly':
+            behs = [b for b in behs if any(s['act']['name'] == 'app' for s in b)]
         else:
             behs = [b for b in behs if b[0]['act'].get('other')]
-        res = replay(c, behs, native, only_once=(kind == 'once'), force=(kind == 'force'))
+        res = replay(c, behs, native, only_once=(kind == 'once'), force=(kind == 'force'), recv_only=(kind == 'recvonly'))
         absorb(c, res, prop, extra_props)
